@@ -25,7 +25,7 @@ def harnesses():
                      fns=["reduce_mod"]))
     for b in [1, 2, 7, 8]:
         for w, fn in enumerate(NAMES):
-            quick = (b == 8 and w in (0, 1)) or (b == 2 and w < 3)
+            quick = (b == 8 and w in (0, 1)) or (b == 2 and w < 2)   # mul_mod at 2 bits: 270-800 s, thorough
             out.append(H("c10_narrow_%d_%s" % (b, fn), "C10", "c10::narrow::<%d,%d>" % (b, w), unwind=12,
                          tier="quick" if quick else "thorough", timeout=3600, inst="Uint<%d,1>" % b, stubs=PIN,
                          role="c10::narrow." + fn,
